@@ -130,6 +130,82 @@ pub fn run_tick_on(
     }
 }
 
+/// Legacy engine-inbox tick: `intent` (the bytes of a serialised [`Program`]) is ingested as a
+/// pending inbox event; one tick then runs `Engine::dispatch_next_intent` — which enqueues the
+/// first matching `cmd/*` handler (our interpreter rule) **and the system rule `sys/ack_pending`
+/// on the same event scope**, i.e. a user rewrite and a system rewrite in one work unit — plus the
+/// candidates of `seq`, and commits.  Returns the outcome, or the classified failure together
+/// with the engine state after the failed commit and the state just before the tick.
+pub fn run_inbox_tick(
+    pre: &RefState,
+    intent: &[u8],
+    seq: &[Cand],
+    kind: SchedulerKind,
+    workers: usize,
+) -> Result<TickOutcome, (TickFailure, Option<WarpState>, Option<WarpState>)> {
+    let u = universe();
+    let mut engine = engine_for(pre, kind, workers).map_err(|e| (TickFailure::Setup(e), None, None))?;
+    engine
+        .register_rule(warp_core::inbox::ack_pending_rule())
+        .map_err(|e| (TickFailure::Setup(format!("register ack_pending: {e:?}")), None, None))?;
+    engine
+        .ingest_intent(intent)
+        .map_err(|e| (TickFailure::Setup(format!("ingest: {e:?}")), None, None))?;
+    let before = engine.state().clone();
+    let tx = engine.begin();
+    match engine.dispatch_next_intent(tx) {
+        Ok(warp_core::DispatchDisposition::Consumed { handler_matched: true, .. }) => {}
+        other => {
+            engine.abort(tx);
+            return Err((TickFailure::Setup(format!("dispatch: {other:?}")), None, Some(before)));
+        }
+    }
+    let mut apply_results = Vec::new();
+    for (rule, w, n) in seq {
+        let stack = descent_stack(pre, *w);
+        match engine.apply_in_warp(tx, u.warp(*w), rule, &u.node(*n), &stack) {
+            Ok(r) => apply_results.push(format!("{r:?}")),
+            Err(e) => {
+                engine.abort(tx);
+                return Err((TickFailure::Setup(format!("apply: {e:?}")), None, Some(before)));
+            }
+        }
+    }
+    match commit_classified(&mut engine, tx, before.clone(), apply_results) {
+        Ok(o) => Ok(o),
+        Err(f) => Err((f, Some(engine.state().clone()), Some(before))),
+    }
+}
+
+fn commit_classified(
+    engine: &mut Engine,
+    tx: warp_core::TxId,
+    pre: WarpState,
+    apply_results: Vec<String>,
+) -> Result<TickOutcome, TickFailure> {
+    let res = std::panic::catch_unwind(std::panic::AssertUnwindSafe(|| engine.commit_with_receipt(tx)));
+    match res {
+        Ok(Ok((snapshot, receipt, patch))) => {
+            let applied = receipt
+                .entries()
+                .iter()
+                .map(|e| matches!(e.disposition, TickReceiptDisposition::Applied))
+                .collect();
+            Ok(TickOutcome { snapshot, receipt, patch, post: engine.state().clone(), pre, applied, apply_results })
+        }
+        Ok(Err(e)) => Err(TickFailure::EngineError(format!("{e:?}"))),
+        Err(p) => {
+            if let Some(v) = p.downcast_ref::<FootprintViolation>() {
+                Err(TickFailure::Violation { kind: format!("{:?}", v.kind), op_kind: v.op_kind.to_string(), with_panic: false })
+            } else if let Some(v) = p.downcast_ref::<FootprintViolationWithPanic>() {
+                Err(TickFailure::Violation { kind: format!("{:?}", v.violation.kind), op_kind: v.violation.op_kind.to_string(), with_panic: true })
+            } else {
+                Err(TickFailure::Panic(mc::panic_message(&p)))
+            }
+        }
+    }
+}
+
 /// The chain of portal slots from the root instance down to `w` (root → … → w), as the engine's
 /// `descent_stack` argument expects.
 pub fn descent_stack(pre: &RefState, w: W) -> Vec<warp_core::AttachmentKey> {
